@@ -223,7 +223,7 @@ class Support final {
   std::optional<RelativeIndex> intervalIndexFromAbsolute(
       AbsoluteIndex index) const {
     DURING_TEST_CHECK_VALIDITY();
-    if (index >= _startIndex && index + 1 < _endIndex) {
+    if (index >= _startIndex && index < _endIndex && index + 1 < _endIndex) {
       return index - _startIndex;
     } else {
       return std::nullopt;
